@@ -246,8 +246,8 @@ Print Assumptions C04_data_model_every_run_terminates.
    producer shapes (keep = 1: line readers; keep = 0: seqgen), a run that has drained wrote -- up to the cutting into
    batches -- exactly the sequential composition of the verbs applied to the WHOLE input: the done signal only
    truncates input the chain would have discarded anyway.
-   PARTIAL in one respect: "has drained" is the hypothesis [fquiescent]; that every exited run (ffinal) is drained is
-   proved for the control part only (C17_exit0_implies_complete via the projection), not for queue contents. *)
+   Here "has drained" is the hypothesis [fquiescent]; C04_exited_run_is_drained below proves it of every exited run, and
+   C04_early_exit_determinism_exited is the statement without it. *)
 Theorem C04_early_exit_determinism :
   forall (rec str st : Type) (keep nq : nat) (vs : list (@verb rec str st * st)) (bs : list (list (@item rec str))) s,
     chain_ok nq vs -> forallb recs_only bs = true -> DataFlags.freach keep (DataFlags.finit vs bs) s -> fquiescent s ->
@@ -289,3 +289,49 @@ Example C04_early_exit_nonvacuous :
   exists s, frun_sched 1 schedH (DataFlags.finit (chain_of hh) four) = Some s /\ fquiescentb s = true /\ ffinal s = true
             /\ length (frem s) < 3 /\ flat (fout s) = [inl 2; inl 1].
 Proof. exact early_exit_nonvacuous. Qed.
+
+(* ======================= every exited run is drained (coq/C04/Drained.v) ======================= *)
+From Miller Require Import C04.Drained.
+
+(* For every chain, input, producer shape and interleaving: when main has exited, the producer has sent its
+   end-of-stream marker, every verb goroutine has forwarded it and its input channel is EMPTY, and the writer channel is
+   EMPTY (queue contents, not only control points: the end-of-stream marker is always the last batch in flight). *)
+Theorem C04_exited_run_is_drained :
+  forall (rec str st : Type) (keep : nat) (vs : list (@verb rec str st * st)) (bs : list (list (@item rec str))) s,
+    DataFlags.freach keep (DataFlags.finit vs bs) s -> ffinal s = true -> fquiescent s.
+Proof. exact (@exited_run_is_drained). Qed.
+Print Assumptions C04_exited_run_is_drained.
+
+Theorem C04_writer_done_is_drained :
+  forall (rec str st : Type) (keep : nat) (vs : list (@verb rec str st * st)) (bs : list (list (@item rec str))) s,
+    DataFlags.freach keep (DataFlags.finit vs bs) s -> fwr s = WDone ->
+    fquiescent s /\ Forall (fun g => fp g = FDone) (fvs s).
+Proof. exact (@writer_done_is_drained). Qed.
+Print Assumptions C04_writer_done_is_drained.
+
+(* the early-exit determinism theorem for every run that has EXITED (no "drained" hypothesis) ... *)
+Theorem C04_early_exit_determinism_exited :
+  forall (rec str st : Type) (keep nq : nat) (vs : list (@verb rec str st * st)) (bs : list (list (@item rec str))) s,
+    chain_ok nq vs -> forallb recs_only bs = true -> DataFlags.freach keep (DataFlags.finit vs bs) s -> ffinal s = true ->
+    flat (fout s) = flat (DataFlags.seq_chain vs (whole bs)).
+Proof. exact (@early_exit_determinism_exited). Qed.
+Print Assumptions C04_early_exit_determinism_exited.
+
+(* ... so any two exited runs (any two schedules) of such a chain on the same input wrote the same bytes *)
+Theorem C04_two_exited_runs_agree :
+  forall (rec str st : Type) (keep nq : nat) (vs : list (@verb rec str st * st)) (bs : list (list (@item rec str))) s1 s2,
+    chain_ok nq vs -> forallb recs_only bs = true ->
+    DataFlags.freach keep (DataFlags.finit vs bs) s1 -> ffinal s1 = true ->
+    DataFlags.freach keep (DataFlags.finit vs bs) s2 -> ffinal s2 = true ->
+    flat (fout s1) = flat (fout s2).
+Proof. exact (@early_exit_two_exited_runs_agree). Qed.
+Print Assumptions C04_two_exited_runs_agree.
+
+(* non-vacuity: the run of C04_early_exit_nonvacuous has exited (ffinal) -- its hypotheses are those of the theorems above *)
+Example C04_exited_nonvacuous :
+  exists s, DataFlags.freach 1 (DataFlags.finit (chain_of hh) four) s /\ ffinal s = true /\ fquiescent s
+            /\ flat (fout s) = [inl 2; inl 1].
+Proof.
+  destruct early_exit_nonvacuous as (_ & s & Hrun & Hq & Hf & _ & Hout).
+  exists s. split; [now apply frun_sched_reach in Hrun|]. split; [exact Hf|]. split; [now apply fquiescentb_ok|exact Hout].
+Qed.
